@@ -1,10 +1,11 @@
 import Mav.Proofs.Codec2
+import Mav.Proofs.InitSound
 import Mav.Gen.MsgsAll
 /-
   C04 — message round trip, truncation, extensions. Property theorems only.
   Model: Mav/Model/Msg.lean (`ReadWriter.Write` = encode, `ReadWriter.Read` = decode), for ANY message layout `rw` whose sizes
-  agree with its fields (`RWok`: true of every layout `Initialize` produces for a message of at most 255 bytes; checked for
-  the 408 shipped definitions by C03.shipped_layout_agrees and on every run by the harness). All theorems are for every
+  agree with its fields (`RWok`: true of every layout `Initialize` produces — theorem `accepted_struct_usable` below, since `fix: reject at
+  initialization the message structs that cannot be encoded`; also kernel-checked for the 408 shipped definitions). All theorems are for every
   layout, every value assignment and every payload, not for the shipped types only.
   Not in Lean: that the decoder never writes to the caller's buffer (Go slice aliasing) — decided by the harness on poisoned
   backing arrays.
@@ -141,6 +142,18 @@ def demoRW : RW :=
     sizeNormal := 5, sizeExtended := 5, crcExtra := 0, nfields := 2 }
 
 example : RWok demoRW := rwOk_of_bool _ (by decide)
+
+/-- **C04 (the theorems apply to every struct `Initialize` accepts).** Whatever struct the model of `Initialize` accepts, its
+    layout satisfies `RWok`; so decoding any payload never panics and encoding any well-typed value succeeds and decodes to its
+    canonical form, in both versions — no struct fails at first use. -/
+theorem accepted_struct_usable (st : GoStruct) (rw : RW) (h : Msg.init st = .ok rw) :
+    RWok rw ∧ (∀ isV2 payload, decode rw isV2 payload ≠ .panic) ∧
+    (∀ vals, WellTyped rw vals → ∃ p, encode rw true vals = .ok p ∧ decode rw true p = .ok (canonV2 rw vals)) ∧
+    (∀ vals, WellTyped rw vals → ∃ p, encode rw false vals = .ok p ∧ p.length = rw.sizeNormal.toNat ∧
+      decode rw false p = .ok (canonV1 rw vals)) := by
+  have hok := rwOk_of_bool rw (InitSound.accepted_never_wraps st rw h)
+  exact ⟨hok, fun isV2 payload => decode_never_panics rw hok isV2 payload, fun vals hw => roundtrip_v2 rw hok vals hw,
+    fun vals hw => roundtrip_v1 rw hok vals hw⟩
 
 /-- **C04 (the theorems apply to every shipped message type).** For each of the 408 message structs of the 19 shipped dialects
     (regenerated from the source on every run), the layout `Initialize` computes satisfies the hypothesis `RWok`. -/
